@@ -85,6 +85,7 @@ def _init_worker(ctxd, scratch):
     W.bases, W.txs = I.build_bases(ctxd["repo"])
     W.sess = I.sessions(W.txs)
     W.alpha = I.command_alphabet()
+    W.xlines = I.exec_pair_lines()
     W.tfc = I.tf_commands()
     W.cwd = os.path.join(scratch, "w%d" % os.getpid())
     os.makedirs(os.path.join(W.cwd, "doc"), exist_ok=True)
@@ -144,6 +145,12 @@ def concretize(d):
         cmds = [W.alpha[i] for i in d[2]]
         return dict(tool="btcdeb_tty", bin="btcdeb_tty", argv=list(argv), stdin="".join(c + "\n" for c in cmds), env={},
                     base="tty/" + sid, kind="cmdseq-len%d" % len(cmds), desc=" ; ".join(repr(c) for c in cmds) or "(no commands)")
+    if t == "X":
+        sid, argv = W.sess[d[1]]
+        line = W.xlines[d[2]]
+        cmds = [line if c == "{x}" else c for c in I.EXEC_PAIR_PATTERNS[d[3]]]
+        return dict(tool="btcdeb_tty", bin="btcdeb_tty", argv=list(argv), stdin="".join(c + "\n" for c in cmds), env={},
+                    base="tty/" + sid, kind="exec-line-pair", desc=" ; ".join(repr(c) for c in cmds))
     if t == "F":
         sid, argv = W.sess[d[1]]
         name, line = W.tfc[d[2]]
@@ -641,17 +648,26 @@ def enumerate_space(ctx, bases, txs):
     L = 2 if tier == "quick" else 3
     n_seq = 0
     A = len(alpha)
+    n_x = 0
+    xlines = I.exec_pair_lines()
+    for si in range(len(sess)):
+        for xi in range(len(xlines)):
+            for pi in range(len(I.EXEC_PAIR_PATTERNS)):
+                if tier == "quick" and pi != 1:
+                    continue     # quick: the line followed by four steps (a crash in the line itself shows there too)
+                items.append((("X", si, xi, pi), "asan"))
+                n_x += 1
     for si in range(len(sess)):
         seqs = [()]
         frontier = [()]
-        for _ in range(L):
+        for _ in range(L if si < 6 else max(1, L - 1)):   # the three sessions added later get one level less
             frontier = [s + (a,) for s in frontier for a in range(A)]
             seqs += frontier
         for s in seqs:
             items.append((("T", si, s), "asan"))
             n_seq += 1
     n_tf = 0
-    for si in range(len(sess)):
+    for si in range(min(6, len(sess))):     # the tf commands do not depend on the session: first six sessions only
         for ti in range(len(tfc)):
             for pi in range(len(TF_PATTERNS)):
                 if tier == "quick" and pi > 0 and si != 0:
@@ -689,7 +705,8 @@ def enumerate_space(ctx, bases, txs):
         "pair_rule": "all unordered pairs of single deviations on two different slots" + (
             " (extra-option pseudo slot excluded in quick)" if tier == "quick" else " (extra-option pseudo slot included)"),
         "interactive_sessions": [s[0] for s in sess], "command_alphabet": alpha, "command_alphabet_size": A,
-        "max_sequence_length": L, "command_sequences": n_seq,
+        "max_sequence_length": L, "max_sequence_length_rule": "sessions 1-6: L; the four sessions added later: L-1", "command_sequences": n_seq,
+        "exec_lines_with_two_operations": len(xlines), "exec_line_patterns": I.EXEC_PAIR_PATTERNS, "exec_line_cases": n_x,
         "tf_commands": len(tfc), "tf_rule": "each `tf fn args` alone on every session, and as (step,tf) (tf,step) (rewind,tf) (tf,rewind) " + (
             "on the first session" if tier == "quick" else "on every session"),
         "tf_cases": n_tf, "valgrind_slice": len(vg), "timeout_s": TIMEOUT,
